@@ -390,6 +390,96 @@ def gen_scene(rng: random.Random, n: int, la_family: str, dense_cap: int = 100, 
             "la_family": la_family, "blocks": fams}
 
 
+WHITES = [" ", " ", " ", "\xa0", "\t", "\u3000", "  ", "\n"]
+
+
+def blk_blank_only(rng: random.Random, ox: float, oy: float, n: int) -> List[Any]:
+    """Glyphs that can only form blank lines: runs of white-space glyphs (any size), runs of zero-height
+    glyphs and lone zero-width glyphs (each a line of zero area whatever its text)."""
+    out: List[Any] = []
+    y = oy
+    for _ in range(rng.randint(1, 4)):
+        s = rng.choice(SIZES)
+        mode = rng.choice(["white", "white", "white", "zero_height", "lone_zero_width"])
+        x = ox + s * rng.choice([0, 0, 1, 2.5])
+        k = 1 if mode == "lone_zero_width" else rng.randint(1, 8)
+        for _ in range(k):
+            w = s * rng.choice([0.25, 0.5, 0.5, 1])
+            if mode == "white":
+                out.append(glyph(x, y, w, s, rng.choice(WHITES)))
+            elif mode == "zero_height":
+                out.append(glyph(x, y, w, 0.0, letter(rng) if rng.random() < 0.7 else " "))
+            else:
+                out.append(glyph(x, y, 0.0, s * rng.choice([0, 1]), letter(rng)))
+            x += w + s * rng.choice([0, 0, 0.25, 1, 4])
+        y -= s * rng.choice([1, 1.25, 2, 5])
+    return out[:n]
+
+
+def _nest(rng: random.Random, bbox: List[float], depth: int, leaf_items: List[Any]) -> List[Any]:
+    """leaf_items wrapped into `depth` figures; the intermediate figures hold no glyph of their own."""
+    (x0, y0, x1, y1) = bbox
+    if x1 - x0 < 16 or y1 - y0 < 16:
+        (x0, y0, x1, y1) = (x0, y0, x0 + 128, y0 + 128)
+    item: List[Any] = []
+    kids = leaf_items
+    for _ in range(depth):
+        fx, fy = q(rng, x0, (x0 + x1) / 2), q(rng, y0, (y0 + y1) / 2)
+        fw, fh = q(rng, 0, (x1 - x0) / 2), q(rng, 0, (y1 - y0) / 2)
+        matrix = rng.choice([[1, 0, 0, 1, 0, 0], [1, 0, 0, 1, 0, 0], [2, 0, 0, 2, 0, 0], [0, 1, -1, 0, 300, 0], [0.5, 0, 0, 0.5, 10, 10]])
+        item = ["f", [fx, fy, fw, fh], matrix, kids]
+        kids = gen_shapes(rng, bbox, rng.choice([0, 0, 1, 2]))
+        kids.insert(rng.randint(0, len(kids)), item)
+    return item
+
+
+def gen_special_scene(rng: random.Random, special: str, la_family: str, la: Dict[str, Any]) -> Dict[str, Any]:
+    """Two families in which a container has no text line of its own to group:
+
+    figures_only  the page holds figures (and shapes) only; the glyphs sit 1-3 figures deep, the intermediate
+                  figures are glyph-less too; all_texts is set (9 in 10), so every level must be analysed;
+    blank_only    every glyph of the page (and of its figures) is white space or has zero area, so that all text
+                  lines are blank; sometimes a figure with ordinary text is added next to them."""
+    bbox = list(rng.choice(PAGE_BOXES[:12]))
+    fams: Dict[str, int] = {special: 1}
+    items: List[Any] = gen_shapes(rng, bbox, rng.choice([0, 0, 1, 3]))
+    (x0, y0, x1, y1) = bbox
+    if x1 - x0 < 8 or y1 - y0 < 8:
+        (x0, y0, x1, y1) = (x0, y0, x0 + 64, y0 + 64)
+
+    def origin() -> Tuple[float, float]:
+        return q(rng, x0, x0 + (x1 - x0) * 0.8), q(rng, y0 + (y1 - y0) * 0.1, y1)
+
+    if special == "figures_only":
+        la["all_texts"] = rng.random() < 0.9
+        for _ in range(rng.randint(1, 3)):
+            depth = rng.choice([1, 1, 2, 2, 3])
+            r = rng.random()
+            if r < 0.7:
+                leaf = gen_glyphs(rng, bbox, rng.choice([1, 2, 5, 12, 30]), fams)
+            elif r < 0.85:
+                leaf = blk_blank_only(rng, *origin(), 20)
+            else:
+                leaf = blk_corner(rng, *origin(), 12)
+            for sh in gen_shapes(rng, bbox, rng.choice([0, 0, 1])):
+                leaf.insert(rng.randint(0, len(leaf)), sh)
+            items.insert(rng.randint(0, len(items)), _nest(rng, bbox, depth, leaf))
+            fams["figure_depth_%d" % depth] = fams.get("figure_depth_%d" % depth, 0) + 1
+    elif special == "blank_only":
+        for _ in range(rng.randint(1, 3)):
+            for g in blk_blank_only(rng, *origin(), 30):
+                items.insert(rng.randint(0, len(items)) if rng.random() < 0.1 else len(items), g)
+        r = rng.random()
+        if r < 0.5:
+            la["all_texts"] = rng.random() < 0.85
+            for _ in range(rng.randint(1, 2)):
+                leaf = blk_blank_only(rng, *origin(), 20) if rng.random() < 0.75 else blk_para(rng, *origin(), 15)
+                items.insert(rng.randint(0, len(items)), _nest(rng, bbox, rng.choice([1, 1, 2]), leaf))
+    else:
+        raise ValueError(special)
+    return {"bbox": bbox, "rotate": 0, "items": items, "la": la, "la_family": la_family, "blocks": fams, "special": special}
+
+
 # ----------------------------------------------------------------------------
 # LAParams families
 # ----------------------------------------------------------------------------
@@ -636,17 +726,35 @@ def gen_pdf(rng: random.Random) -> Dict[str, Any]:
     img = doc.add(Stream({"Type": N("XObject"), "Subtype": N("Image"), "Width": 1, "Height": 1, "ColorSpace": N("DeviceGray"),
                           "BitsPerComponent": 8}, b"\x7f"))
 
+    mode = rng.choice(["mixed"] * 6 + ["forms_only", "blank_only"])
+
+    def blank_block(x0: float, y0: float) -> bytes:
+        size = rng.choice([8, 10, 12, 18])
+        out = [b"BT /%s %s Tf %s TL 1 0 0 1 %s %s Tm" % (rng.choice([b"F1", b"F2"]), _num(size), _num(size * 1.25), _num(x0), _num(y0))]
+        for _ in range(rng.randint(1, 4)):
+            out.append(b"(" + b" " * rng.randint(1, 6) + b") Tj T*")
+        out.append(b"ET")
+        return b" ".join(out)
+
     def form(level: int) -> Any:
         parts = []
         xo: Dict[str, Any] = {"Im1": img}
-        for _ in range(rng.randint(0, 3)):
+        deeper = level < 3 and rng.random() < (0.6 if mode == "forms_only" else 0.4)
+        if mode == "forms_only":
+            nown = 0 if deeper else rng.randint(1, 3)        # intermediate forms paint no text themselves
+        else:
+            nown = rng.randint(0, 3)
+        for _ in range(nown):
+            if mode == "blank_only":
+                parts.append(blank_block(q(rng, 0, 200), q(rng, 0, 200)))
+                continue
             parts.append(_text_block(rng, ["F1", "F2"], "F3", q(rng, 0, 200), q(rng, 0, 200), 200, 100))
         if rng.random() < 0.5:
             parts.append(_paths(rng, 0, 0, 200, 200))
         if rng.random() < 0.4:
             parts.append(b"q 40 0 0 30 %s %s cm /Im1 Do Q" % (_num(q(rng, 0, 100)), _num(q(rng, 0, 100))))
             feats.add("image_in_form")
-        if level < 3 and rng.random() < 0.4:
+        if deeper:
             xo["Fn"] = form(level + 1)
             parts.append(b"q 1 0 0 1 %s %s cm /Fn Do Q" % (_num(q(rng, 0, 50)), _num(q(rng, 0, 50))))
             feats.add("nested_form_%d" % (level + 1))
@@ -661,8 +769,11 @@ def gen_pdf(rng: random.Random) -> Dict[str, Any]:
     for _ in range(rng.choice([1, 1, 1, 2, 3])):
         parts = []
         xo = {"Im1": img}
-        nblocks = rng.choice([0, 1, 2, 3, 5, 8])
+        nblocks = 0 if mode == "forms_only" else rng.choice([1, 2, 3]) if mode == "blank_only" else rng.choice([0, 1, 2, 3, 5, 8])
         for _ in range(nblocks):
+            if mode == "blank_only":
+                parts.append(blank_block(q(rng, 20, 400), q(rng, 20, 650)))
+                continue
             parts.append(_text_block(rng, ["F1", "F2"], "F3", q(rng, 20, 400), q(rng, 20, 650), rng.choice([150, 300]), rng.choice([60, 120])))
         if rng.random() < 0.5:
             parts.append(_paths(rng, 20, 20, 500, 700))
@@ -673,7 +784,7 @@ def gen_pdf(rng: random.Random) -> Dict[str, Any]:
         if rng.random() < 0.2:
             parts.append(b"q 20 0 0 20 300 300 cm BI /W 1 /H 1 /CS /G /BPC 8 ID \x55 EI Q")
             feats.add("inline_image")
-        for k in range(rng.choice([0, 0, 1, 1, 2])):
+        for k in range(rng.choice([1, 1, 2]) if mode == "forms_only" else rng.choice([0, 0, 1, 1, 2])):
             xo["Fm%d" % k] = form(1)
             parts.append(b"q 1 0 0 1 %s %s cm /Fm%d Do Q" % (_num(q(rng, 0, 300)), _num(q(rng, 0, 500)), k))
             feats.add("form")
@@ -688,4 +799,7 @@ def gen_pdf(rng: random.Random) -> Dict[str, Any]:
 
     page_doc(pages, doc)
     fam = rng.choice(LA_FAMILIES)
-    return {"pdf": doc.build(), "la": gen_la(rng, fam), "la_family": fam, "features": sorted(feats), "npages": len(pages)}
+    la = gen_la(rng, fam)
+    if mode != "mixed" and rng.random() < 0.8:
+        la["all_texts"] = True
+    return {"pdf": doc.build(), "la": la, "la_family": fam, "features": sorted(feats), "npages": len(pages), "mode": mode}
